@@ -79,12 +79,13 @@ def plan(tier, seed):
     scaled = scaled_axes(tier)
     shards = [('exact', exact[i::32]) for i in range(32)] + [('pert', pert[i::16]) for i in range(16)] + [('scaled', scaled[i::8]) for i in range(8)]
     shards += [('vecscale', exact[i::4]) for i in range(4)] + [('objects', exact[i::4]) for i in range(4)]
+    shards += [('callpairs', [i]) for i in range(8)]
     return dict(shards=shards, exhaustive=True,
                 rule=('all axes in {-2,-1,-.5,0,.5,1,2}^3 minus 0 (342) plus every zero component of those replaced by '
                       '+-1e-9 (thorough: also 1e-12, 1e-6); angles k*15 deg, +-109.5, +-pi, 2pi, -120, -90, 1e-9 '
                       '(thorough: also k*7.5 deg and negatives); vectors {-1,0,1.5}^3 minus 0 plus the axis itself and '
                       'two vectors orthogonal to it; the zero vector and vectors scaled by 1e-200 ... 1e160; sequences on one axis object (length taken, '
-                      'components re-assigned, rotated again). non-trivial = distinct triples whose rotation is not the identity '
+                      'components re-assigned, rotated again); every ordered pair of calls over 64 (thorough 342) axes, each pair in a process of its own. non-trivial = distinct triples whose rotation is not the identity '
                       '(angle not a multiple of 2pi and vector not parallel to the axis)'),
                 bounds=dict(axes_exact=len(exact), axes_perturbed=len(pert), angles=len(angles(tier))),
                 samples=[dict(axis=[0, 0, -1], angle_deg=90, vec=[1, 0, 0], expect=[0, -1, 0])])
@@ -147,6 +148,18 @@ def vectors(ax):
     return [v for v in vs if any(v)]
 
 
+def _callpair(case):
+    vec = tuple(case['vec'])
+    lv = math.sqrt(sum(c * c for c in vec))
+    rotate_vector_around_an_axis(case['angle'], Vector(*case['axis']), Vector(*vec))
+    for which, ax in (('second', case['axis2']), ('first-again', case['axis'])):
+        got = rotate_vector_around_an_axis(case['angle'], Vector(*ax), Vector(*vec))
+        exp = rodrigues(case['angle'], tuple(ax), vec)
+        if max(abs(a - b) for a, b in zip([got.x, got.y, got.z], exp)) > 1e-9 * lv:
+            return ('wrong-rotation/after-another-call/%s' % which, 'axis %r after axis %r: got %r expected %r' % (ax, case['axis'], [got.x, got.y, got.z], exp))
+    return None
+
+
 def run_shard(shard, ctx):
     acc = Acc()
     kind, axs = shard
@@ -157,6 +170,28 @@ def run_shard(shard, ctx):
                 for v in ((1.0, 0.0, 0.0), (-1.0, 0.5, 1.5)):
                     for sc in VEC_SCALES:
                         run_case(dict(kind='vecscale', axis=list(ax), angle=th, vec=list(v), scale=sc), ctx, acc)
+        return acc
+    if kind == 'callpairs':
+        # every ordered pair of calls with axes from {-2,-1,-0.5,0.5,1,2}^3 (thorough: plus 0) in one process: the second call
+        # is judged, then the first one again
+        comp = (-2.0, -1.0, 1.0, 2.0) if ctx.tier == 'quick' else (-2.0, -1.0, -0.5, 0.0, 0.5, 1.0, 2.0)
+        allax = [a for a in itertools.product(comp, repeat=3) if any(a)]
+        th, v = math.radians(75.0), (1.0, -2.0, 0.5)
+        from ..core import fresh
+        for k1 in range(axs[0], len(allax), 8):
+            for a2 in allax:
+                # each pair in a process of its own (a fork of this worker, which has not called the function yet), so that a
+                # failure can only come from the first call of the pair
+                case = dict(kind='callpair', axis=list(allax[k1]), axis2=list(a2), angle=th, vec=list(v))
+                r = fresh(_callpair, case)
+                acc.n += 1
+                acc.nontrivial_n += 1
+                if isinstance(r, dict) and r.get('died'):
+                    raise RuntimeError(r['died'])
+                if r:
+                    acc.viols.append(Viol(case, 'rodrigues', r[0], r[1]))
+                else:
+                    acc.outcomes['callpair-ok'] += 1
         return acc
     if kind == 'objects':
         for ax in axs[:: (4 if ctx.tier == 'quick' else 1)]:
@@ -200,6 +235,13 @@ def run_case(case, ctx, acc):
         if any(x != x for x in g) or max(abs(a - b) for a, b in zip(g, exp)) > 1e-9 * lv:
             acc.viols.append(Viol(case, 'rodrigues', 'wrong-rotation/vector-scale=%g' % sc, 'got %r expected %r' % (g, exp)))
         acc.outcomes['vecscale-ok'] += 1
+        return
+    if case.get('kind') == 'callpair':
+        acc.n += 1
+        acc.nontrivial_n += 1
+        r = _callpair(case)
+        if r:
+            acc.viols.append(Viol(case, 'rodrigues', r[0], r[1]))
         return
     if case.get('kind') == 'objects':
         # one Vector object serves as axis twice, its components re-assigned in between (after its length was taken)
